@@ -70,6 +70,8 @@ def _reindexes_holders(fn, shift_bb, op="remove", prog=None):
     removed = mir.strip_all(pv.of_operand(shift["args"][1])) if len(shift["args"]) > 1 else None
     if _reindex_in(body, after, removed):
         return True
+    if prog is not None and _reindex_chains(prog, fn, after, removed):
+        return True
     # the rewrite may have been moved into a private helper that is handed the removed index
     for b, t in body.calls():
         if b not in after or prog is None:
@@ -83,6 +85,49 @@ def _reindexes_holders(fn, shift_bb, op="remove", prog=None):
                 if _reindex_in(g.body, whole, ("param", j)):
                     return True
     return False
+
+
+def _reindex_chains(prog, fn, after, removed):
+    """the iterator spelling of the rewrite, for both holders:
+    `holder.values_mut() / iter_mut() .filter(|x| x > removed) .for_each(|x| x -= 1)` - the filter closure
+    compares with `>` against the captured removed index, the for_each closure subtracts the constant 1 and
+    stores through its item (or into its memory_block_index)"""
+    body = fn.body
+    pv = mir.Prov(body)
+    done = set()
+    for b, t in body.calls():
+        if b not in after or mir.callee_path(t).split("::")[-1] not in ("values_mut", "iter_mut"):
+            continue
+        holder = common.receiver_field(pv, t)
+        if holder not in ("static_memory_blocks", "states"):
+            continue
+        filt = dec = False
+        for _b2, t2 in body.calls():
+            nm = mir.callee_path(t2).split("::")[-1]
+            if nm not in ("filter", "for_each") or len(t2["args"]) < 2:
+                continue
+            if not mir.origin_mentions(pv.of_operand(t2["args"][0]), lambda z: z[0] == "call" and len(z) > 3 and z[3] == b):
+                continue
+            so = mir.strip_all(pv.of_operand(t2["args"][1]))
+            if not (so[0] == "agg" and so[1] == "closure"):
+                continue
+            c = prog.fns.get(so[2])
+            if c is None or c.body is None:
+                continue
+            stmts = [st for blk in c.body.blocks if not blk.get("c") for st in blk["s"] if st["k"] == "assign"]
+            if nm == "filter":
+                captures = [mir.strip_all(x) for x in so[3]]
+                gt = any(st["r"].get("k") == "bin" and st["r"]["op"] == "Gt" for st in stmts)
+                filt = gt and removed in captures
+            else:
+                sub1 = any(st["r"].get("k") == "bin" and st["r"]["op"] in ("Sub", "SubWithOverflow")
+                           and (st["r"]["b"].get("k") or {}).get("int") == 1 for st in stmts)
+                store = any(st["p"][1] and (st["p"][1][-1] == "*" or any(isinstance(e, dict) and e.get("n") == "memory_block_index"
+                                                                          for e in st["p"][1])) for st in stmts)
+                dec = sub1 and store
+        if filt and dec:
+            done.add(holder)
+    return done == {"static_memory_blocks", "states"}
 
 
 def _reindex_in(body, after, removed):
